@@ -185,6 +185,7 @@ func (ex *Exec) oblige(st *State, fr *Frame, kind string, pos token.Pos, src str
 	name := fmt.Sprintf("%s#%d", base, ex.oblCount[base])
 	o := &Obl{Name: name, Kind: kind, Func: ex.vc.Func, Guard: st.guard, Goal: goal, Prefix: len(ex.vc.cmds), vc: ex.vc, Src: src, Props: ex.props}
 	o.InstTag, ex.pendingInst = ex.pendingInst, 0
+	o.lockSnap = st.lockSnap
 	if pos.IsValid() {
 		o.Pos = ex.ld.fset.Position(pos)
 	}
